@@ -11,8 +11,11 @@ Main results
 * `C03_size_sound`     — the soundness invariant of the size loop: final size ∈ [size, maxSize].
 * `C03_pcr8_width`     — umbrella theorem on the statement list that enters `fix_addresses`.
 * `C03_pcr_label`      — plain label: `PcrField s t` (the PCR clause of `C03_Statement`) under "no ORG between".
-* `C03_pcr_label_width`, `C03_pcr_expr_width` — the distance computed in ℤ lies in −128..127 and is what is stored.
-* `C03_pcr_org_counterexample` — the hypothesis "no ORG between" cannot be dropped.
+* `C03_pcr_label_width`, `C03_pcr_expr_width` — the distance `d` computed in ℤ lies in −128..127;
+  `fix_addresses` computes `NumericValue(d, size_hint=2)`, `fit_operand_width` accepts it, and the final field is the
+  two's complement byte `d mod 256`.
+* `C03_pcr_org_counterexample` — the hypothesis "no ORG between" cannot be dropped (witness with the target 200 bytes
+  away; the former witness, 4093 bytes away, is now rejected: `C03_pcr_org_counterexample_fixed`).
 -/
 import CoCoVerif.Lemmas.PcrWidthFix
 import CoCoVerif.Props.C03
@@ -61,8 +64,9 @@ theorem C03_force_is_16 {ss r : List Stmt} (h : forceFirst ss = some r) :
 except for `pkg.additional`).  For every PCR statement `s` (index `i`) settled on the 8-bit form:
 its offset `s4.pkg.additional` names a statement `b` (`relIndex`), is a plain label or `label ± number`
 (`exprForces = false`, `Dist8`), and when no ORG lies between `b` and `i` the signed distance `d` from the end
-of `s` to the target — computed in ℤ, without any wrap — satisfies `−128 ≤ d ≤ 127`, and the stored field is
-`NumericValue(d, size_hint=2)`. -/
+of `s` to the target — computed in ℤ, without any wrap — satisfies `−128 ≤ d ≤ 127`; `fix_addresses` computes
+`NumericValue(d, size_hint=2)`, `fit_operand_width` accepts it (`fitWidth (withAdditional s v) = .ok s`), and the final
+field is the two's complement byte `d mod 256` at two hex digits. -/
 theorem C03_pcr8_width {fs : Files} {lines : List Str} {a : Assembly} (h : assemble fs lines = .ok a) :
     ∃ ss4 : List Stmt, PW SameButAdditional ss4 a.stmts ∧
       ∀ (i : Nat) (s4 s : Stmt), ss4[i]? = some s4 → a.stmts[i]? = some s →
@@ -71,7 +75,8 @@ theorem C03_pcr8_width {fs : Files} {lines : List Str} {a : Assembly} (h : assem
           ∀ t, a.stmts[b]? = some t →
             (∀ j u, min b i < j → j ≤ max b i → a.stmts[j]? = some u → u.row.mnemonic ≠ "ORG") →
             ∃ x y v, ∃ d : Int, addrNat s = some x ∧ addrNat t = some y ∧ -128 ≤ d ∧ d ≤ 127 ∧
-              numericOfInt d (some 2) .none = .ok v ∧ s.pkg.additional = v ∧
+              numericOfInt d (some 2) .none = .ok v ∧ fitWidth (withAdditional s v) = .ok s ∧
+              s.pkg.additional = .numeric (d % 256).toNat (some 2) .extended false ∧
               Dist8 s4.pkg.additional x y s.pkg.size d := by
   obtain ⟨st⟩ := assemble_stages h
   refine ⟨st.ss4, fixAll_pw st.hfix, ?_⟩
@@ -88,14 +93,14 @@ private theorem plain_addl {fs : Files} {lines : List Str} {a : Assembly} {st : 
     {i b : Nat} {m : Mode} {s s3 s4 : Stmt} (pre : PcrPre st i s s3 s4)
     (hl : s.operand.left = .val (.address b m)) :
     s4.pkg.additional.isAddrExpr = false ∧ relIndex s4.pkg.additional = some b := by
-  have hop : s.operand = s4.operand := by obtain ⟨v, rfl⟩ := pre.rel4; rfl
+  have hop : s.operand = s4.operand := pre.same.2.2.2.2
   obtain ⟨hh, mm, hadd⟩ : ∃ hh mm, s4.pkg.additional = .numeric b hh mm false :=
     pre.left pre.choices (.address b m) (by rw [← hop]; exact hl)
   rw [hadd]
   exact ⟨rfl, rfl⟩
 
 /-- **C03, PCR clause, plain label**: for every accepted program, every PCR statement `s` whose offset is the label
-of statement `t`, with no ORG between the two: `PcrField s t` — the stored field is
+of statement `t`, with no ORG between the two: `PcrField s t` — the field (before `fit_operand_width` re-renders it) is
 `NumericValue(pcrJump, size_hint = pcrHint)` and, on the 8-bit form, `−128 ≤ pcrJump ≤ 127`.
 This is the second clause of `C03_Statement` under the hypothesis "no ORG in between". -/
 theorem C03_pcr_label {fs : Files} {lines : List Str} {a : Assembly} (h : assemble fs lines = .ok a)
@@ -115,15 +120,15 @@ theorem C03_pcr_label {fs : Files} {lines : List Str} {a : Assembly} (h : assemb
   rw [st.addrIntOf4 ht, hy] at hy'
   have hty : target = y := (Option.some.inj hy').symm
   subst hstart' hty
-  have hj : pcrJump s target start = pcrJump s4 target start := by rw [hsv]; rfl
-  have hhint : s.pcrHint = s4.pcrHint := by rw [hsv]; rfl
-  refine ⟨start, target, v, hx, hy, by rw [hj, hhint]; exact hnum, by rw [hsv]; rfl, ?_⟩
+  obtain ⟨hhint, _, hwa, hj', _⟩ := pre.same
+  have hj : pcrJump s target start = pcrJump s4 target start := hj' _ _
+  refine ⟨start, target, v, hx, hy, by rw [hj, hhint]; exact hnum, by rw [hwa]; exact hsv, ?_⟩
   intro hh
   obtain ⟨b', hb', _, hw⟩ := st.pcr8_stored hs hn hh pre
   rw [hb] at hb'
   have : b = b' := Option.some.inj hb'
   subst this
-  obtain ⟨x', y', v', d, hx', hy'', hlo, hhi, _, _, hd⟩ := hw t ht hno
+  obtain ⟨x', y', v', d, hx', hy'', hlo, hhi, _, _, _, hd⟩ := hw t ht hno
   rw [hx] at hx'; rw [hy] at hy''
   have e1 : start = x' := Option.some.inj hx'
   have e2 : target = y' := Option.some.inj hy''
@@ -134,14 +139,16 @@ theorem C03_pcr_label {fs : Files} {lines : List Str} {a : Assembly} (h : assemb
   · rw [hexp] at he; simp [Value.isAddrExpr] at he
 
 /-- plain label, 8-bit form, in the terms of the task statement: `jump := address(t) − address(s) − size(s)`
-computed in ℤ satisfies `−128 ≤ jump ≤ 127`, and `NumericValue(jump, size_hint=2)` is what is stored -/
+computed in ℤ satisfies `−128 ≤ jump ≤ 127`, `NumericValue(jump, size_hint=2)` is what `fix_addresses` computes and
+`fit_operand_width` accepts, and the final field is the byte `jump mod 256` -/
 theorem C03_pcr_label_width {fs : Files} {lines : List Str} {a : Assembly} (h : assemble fs lines = .ok a)
     {i b : Nat} {m : Mode} {s t : Stmt} (hs : a.stmts[i]? = some s) (hn : s.pkg.needsRes = true)
     (hh : s.pcrHint = 2) (hl : s.operand.left = .val (.address b m)) (ht : a.stmts[b]? = some t)
     (hno : ∀ j u, min b i < j → j ≤ max b i → a.stmts[j]? = some u → u.row.mnemonic ≠ "ORG") :
     ∃ x y v, addrNat s = some x ∧ addrNat t = some y ∧
       -128 ≤ (y : Int) - x - s.pkg.size ∧ (y : Int) - x - s.pkg.size ≤ 127 ∧
-      numericOfInt ((y : Int) - x - s.pkg.size) (some 2) .none = .ok v ∧ s.pkg.additional = v := by
+      numericOfInt ((y : Int) - x - s.pkg.size) (some 2) .none = .ok v ∧ fitWidth (withAdditional s v) = .ok s ∧
+      s.pkg.additional = .numeric (((y : Int) - x - s.pkg.size) % 256).toNat (some 2) .extended false := by
   obtain ⟨st⟩ := assemble_stages h
   obtain ⟨s3, s4, pre⟩ := st.pcr_pre hs hn
   obtain ⟨he, hb⟩ := plain_addl pre hl
@@ -149,10 +156,10 @@ theorem C03_pcr_label_width {fs : Files} {lines : List Str} {a : Assembly} (h : 
   rw [hb] at hb'
   have : b = b' := Option.some.inj hb'
   subst this
-  obtain ⟨x, y, v, d, hx, hy, hlo, hhi, hnum, hadd, hd⟩ := hw t ht hno
+  obtain ⟨x, y, v, d, hx, hy, hlo, hhi, hnum, hfit, hadd, hd⟩ := hw t ht hno
   rcases hd with ⟨_, hd⟩ | ⟨l, r, op, m', k, _, _, _, hexp, _⟩
   · subst hd
-    exact ⟨x, y, v, hx, hy, hlo, hhi, hnum, hadd⟩
+    exact ⟨x, y, v, hx, hy, hlo, hhi, hnum, hfit, hadd⟩
   · rw [hexp] at he; simp [Value.isAddrExpr] at he
 
 /-! ### `label ± k` -/
@@ -160,7 +167,8 @@ theorem C03_pcr_label_width {fs : Files} {lines : List Str} {a : Assembly} (h : 
 /-- **`label ± k,PCR` on the 8-bit form.**  `l`, `r` are the two sides of the resolved expression, one of them
 the label of statement `b` (`relIndex`).  Then the operator is `+` or `-`, the other side is a number `k`, and
 the signed distance to `address(t) ± k` computed in ℤ (no wrap, even when `address(t) − k` is negative) lies in
-`−128 .. 127` and is what `fix_addresses` stores as `NumericValue(d, size_hint=2)`. -/
+`−128 .. 127`, is what `fix_addresses` computes as `NumericValue(d, size_hint=2)`, passes `fit_operand_width`, and
+ends as the byte `d mod 256`. -/
 theorem C03_pcr_expr_width {fs : Files} {lines : List Str} {a : Assembly} (h : assemble fs lines = .ok a)
     {i b : Nat} {l r : Value} {op : Char} {m : Mode} {s t : Stmt} (hs : a.stmts[i]? = some s)
     (hn : s.pkg.needsRes = true) (hh : s.pcrHint = 2)
@@ -172,10 +180,12 @@ theorem C03_pcr_expr_width {fs : Files} {lines : List Str} {a : Assembly} (h : a
       -128 ≤ (if op = '+' then (y : Int) + k else (y : Int) - k) - x - s.pkg.size ∧
       (if op = '+' then (y : Int) + k else (y : Int) - k) - x - s.pkg.size ≤ 127 ∧
       numericOfInt ((if op = '+' then (y : Int) + k else (y : Int) - k) - x - s.pkg.size) (some 2) .none = .ok v ∧
-      s.pkg.additional = v := by
+      fitWidth (withAdditional s v) = .ok s ∧
+      s.pkg.additional = .numeric
+        (((if op = '+' then (y : Int) + k else (y : Int) - k) - x - s.pkg.size) % 256).toNat (some 2) .extended false := by
   obtain ⟨st⟩ := assemble_stages h
   obtain ⟨s3, s4, pre⟩ := st.pcr_pre hs hn
-  have hop : s.operand = s4.operand := by obtain ⟨v, rfl⟩ := pre.rel4; rfl
+  have hop : s.operand = s4.operand := pre.same.2.2.2.2
   have hadd4 : s4.pkg.additional = .expr l r op m true :=
     pre.left pre.choices (.expr l r op m true) (by rw [← hop]; exact hl)
   obtain ⟨b', hb', _, hw⟩ := st.pcr8_stored hs hn hh pre
@@ -184,29 +194,31 @@ theorem C03_pcr_expr_width {fs : Files} {lines : List Str} {a : Assembly} (h : a
   rw [hb] at hb''
   have : b = b' := Option.some.inj hb''
   subst this
-  obtain ⟨x, y, v, d, hx, hy, hlo, hhi, hnum, hadd, hd⟩ := hw t ht hno
+  obtain ⟨x, y, v, d, hx, hy, hlo, hhi, hnum, hfit, hadd, hd⟩ := hw t ht hno
   rw [hadd4] at hd
   rcases hd with ⟨he, _⟩ | ⟨l', r', op', m', k, hk, mk, nk, hexp, hoth, hcase⟩
   · simp [Value.isAddrExpr] at he
   · cases hexp
     rcases hcase with ⟨rfl, hd⟩ | ⟨rfl, hd⟩
     · subst hd
-      refine ⟨x, y, k, hk, mk, nk, v, hx, hy, hoth, .inl rfl, ?_, ?_, ?_, hadd⟩
+      refine ⟨x, y, k, hk, mk, nk, v, hx, hy, hoth, .inl rfl, ?_, ?_, ?_, hfit, ?_⟩
       · simpa using hlo
       · simpa using hhi
       · simpa using hnum
+      · simpa using hadd
     · subst hd
       have hne : ¬ ('-' = '+') := by decide
-      refine ⟨x, y, k, hk, mk, nk, v, hx, hy, hoth, .inr rfl, ?_, ?_, ?_, hadd⟩
+      refine ⟨x, y, k, hk, mk, nk, v, hx, hy, hoth, .inr rfl, ?_, ?_, ?_, hfit, ?_⟩
       · simpa [hne] using hlo
       · simpa [hne] using hhi
       · simpa [hne] using hnum
+      · simpa [hne] using hadd
 
 /-! ### summary -/
 
 /-- What is proved of the width invariant.  (1) the size loop is sound: final sizes lie in `[size, maxSize]`;
 (2) plain label: `PcrField` under "no ORG between"; (3) every 8-bit PCR statement: offset is a plain label or
-`label ± number`, the distance in ℤ fits `−128..127` and is what is stored. -/
+`label ± number`, the distance in ℤ fits `−128..127`, and the final field is its two's complement byte. -/
 theorem C03_width_partial :
     (∀ (ss1 ss2 fin : List Stmt) (fuel : Nat), translateAll ss1 = some ss2 → pcrLoop fuel ss2 = .ok fin →
       PW (fun s f => s.pkg.size ≤ f.pkg.size ∧ f.pkg.size ≤ s.pkg.maxSize ∧ (s.fixedSize = true → f = s)) ss2 fin) ∧
@@ -223,7 +235,8 @@ theorem C03_width_partial :
             ∀ t, a.stmts[b]? = some t →
               (∀ j u, min b i < j → j ≤ max b i → a.stmts[j]? = some u → u.row.mnemonic ≠ "ORG") →
               ∃ x y v, ∃ d : Int, addrNat s = some x ∧ addrNat t = some y ∧ -128 ≤ d ∧ d ≤ 127 ∧
-                numericOfInt d (some 2) .none = .ok v ∧ s.pkg.additional = v ∧
+                numericOfInt d (some 2) .none = .ok v ∧ fitWidth (withAdditional s v) = .ok s ∧
+                s.pkg.additional = .numeric (d % 256).toNat (some 2) .extended false ∧
                 Dist8 s4.pkg.additional x y s.pkg.size d) :=
   ⟨fun _ _ _ _ ht h => C03_size_sound ht h,
    fun _ _ _ h _ _ _ _ _ hs hn hl ht hno => C03_pcr_label h hs hn hl ht hno,
@@ -308,23 +321,34 @@ theorem C03_width_regressions :
 
 /-! ### the hypothesis "no ORG between" cannot be dropped -/
 
-/-- the size loop measures distances in sizes; an ORG between statement and target moves the target -/
+/-- the size loop measures distances in sizes; an ORG between statement and target moves the target.
+(The former witness: the target is 4093 bytes away.) -/
 def C03_pcrOrgWitness : List Str := ["S LEAX T,PCR\n", " ORG $1000\n", "T NOP\n"].map String.toList
 
+/-- REPAIRED (formerly `C03_pcr_org_counterexample`): `S LEAX T,PCR / ORG $1000 / T NOP` used to be accepted with
+the 8-bit form and the byte `$FF` although `T` is 4093 bytes away.  `fit_operand_width` now rejects the program
+("value 4093 does not fit in 1 byte(s)"), whatever the host files are -/
+theorem C03_pcr_org_counterexample_fixed (fs : Files) : assemble fs C03_pcrOrgWitness = .diag :=
+  diagProgram_sound (by decide +kernel) fs
+
+/-- the witness that is left: with the ORG at `$CB` the target is 200 bytes away; 200 fits one byte as an UNSIGNED
+number, so `fit_operand_width` lets it pass, and the CPU reads the byte `$C8` as −56 -/
+def C03_pcrOrgWitness200 : List Str := ["S LEAX T,PCR\n", " ORG $CB\n", "T NOP\n"].map String.toList
+
 private def pcrOrgCheck (a : Assembly) : Bool :=
-  pcrIs a 0 2 3 0 [0x30, 0x8C, 0xFF] &&
+  pcrIs a 0 2 3 0 [0x30, 0x8C, 0xC8] &&
   (match a.stmts[0]?, a.stmts[2]? with
    | some s, some t =>
-     (match s.operand.left with | .val (.address 2 _) => true | _ => false) && addrNat t == some 4096
+     (match s.operand.left with | .val (.address 2 _) => true | _ => false) && addrNat t == some 203
    | _, _ => false)
 
-/-- `S LEAX T,PCR / ORG $1000 / T NOP` is accepted with the 8-bit form although `T` is 4093 bytes away (the byte
-`$FF` is emitted): `PcrField` fails, so `C03_pcr_label` needs its hypothesis -/
+/-- `S LEAX T,PCR / ORG $CB / T NOP` is accepted with the 8-bit form although `T` is 200 bytes away (the byte
+`$C8` = −56 is emitted): `PcrField` fails, so `C03_pcr_label` needs its hypothesis "no ORG between" -/
 theorem C03_pcr_org_counterexample :
-    ∃ a s t m, assemble [] C03_pcrOrgWitness = .ok a ∧ a.stmts[0]? = some s ∧ a.stmts[2]? = some t ∧
+    ∃ a s t m, assemble [] C03_pcrOrgWitness200 = .ok a ∧ a.stmts[0]? = some s ∧ a.stmts[2]? = some t ∧
       s.pkg.needsRes = true ∧ s.operand.left = .val (.address 2 m) ∧ s.pcrHint = 2 ∧
-      stmtBytes s = some [0x30, 0x8C, 0xFF] ∧ ¬ PcrField s t := by
-  obtain ⟨a, ha, hc⟩ := checkProgram_sound (lines := C03_pcrOrgWitness) (check := pcrOrgCheck) (by decide +kernel) []
+      stmtBytes s = some [0x30, 0x8C, 0xC8] ∧ ¬ PcrField s t := by
+  obtain ⟨a, ha, hc⟩ := checkProgram_sound (lines := C03_pcrOrgWitness200) (check := pcrOrgCheck) (by decide +kernel) []
   unfold pcrOrgCheck at hc
   simp only [Bool.and_eq_true] at hc
   obtain ⟨h1, h2⟩ := hc
